@@ -7,6 +7,8 @@ trap 'rm -rf "$VERIF_EVIDENCE_DIR"' EXIT
 [ -n "$(git -C /repo status --porcelain)" ] && { echo "/repo not clean"; exit 1; }
 for D in seeded/*/; do
   ID=$(basename $D); PID=${ID%_*}
+  # ONLY="C02_5 C07_6 ..." restricts the run to these seeds
+  if [ -n "${ONLY:-}" ] && ! echo " $ONLY " | grep -q " $ID "; then continue; fi
   ALSO=$(cat $D/also 2>/dev/null)
   git -C /repo apply /verif/$D/patch.diff 2>/dev/null || { echo "$ID: patch does not apply"; continue; }
   LINE="$ID:"
